@@ -22,8 +22,11 @@ TRUSTED_BASE = [
 ASSUMPTIONS = ["number literals are within the exactly representable range |n| <= 2^53 and floats print without exponent (others are out of the property's stated range)"]
 TECHNIQUE = "generation of valid queries from the AST + lexical-variation renderer, validity decided by Coq-extracted grammar recognizer and typing judgement, differential against compile(); model correspondence; partial Coq theorems"
 LEVEL = "proof"
-LEVEL_TEXT = ("Proved: oracle correctness (in_rfc_sound/complete), number and string sublanguage lemmas listed in Props/C03.v; the headline C03_complete (derivable and valid -> model accepts) "
-              "is stated there and NOT proved in full (partial). Every generated valid query must compile, to the generating structure.")
+LEVEL_TEXT = ("Proved: the parser half - C05_complete_tokens: every token sequence the typed token grammar derives is accepted and yields the derived query; the lexer half for the canonical spelling - "
+              "C12_roundtrip: str(q) of any well-typed query (nested filters, calls, all operators) lexes to such a token sequence; the converse direction in full - C04_sound: everything accepted is derivable "
+              "from the ABNF; oracle correctness (in_rfc_sound/complete); number and string sublanguage lemmas of Props/C03.v. The headline C03_complete (derivable and valid -> accepted, for EVERY lexical variant: "
+              "blank space, quote styles, escapes, shorthand, number spellings) is stated there and NOT proved in full (partial): the lexer on every spelling of a token sequence is tied by correspondence. "
+              "Every generated valid query must compile, to the generating structure.")
 LEVEL_NOTE = "Partial: full grammar -> lexer+parser completeness is not proved. Trusted: Coq kernel, grammar transcription, renderer (self-checked), extraction and driver."
 
 
